@@ -673,6 +673,16 @@ func (o vC20SrvOp) String() string {
 	return o.kind
 }
 
+// Timeouts are X ms + 500 µs (or 0 = the 10 s default), sleeps are Y ms + 1 µs
+// and at most 16 per case: the virtual clock never stands exactly on a deadline,
+// so "has this Respond timed out yet" always has one answer.
+func vC20SrvTimeout(ms int) time.Duration {
+	if ms == 0 {
+		return 0
+	}
+	return time.Duration(ms)*time.Millisecond + 500*time.Microsecond
+}
+
 type vC20SrvResult struct {
 	res PunchResult
 	err error
@@ -690,14 +700,14 @@ func TestVerifC20_ServerPuncher(t *testing.T) {
 			switch c := rapid.IntRange(0, 9).Draw(rt, "op"); {
 			case c <= 2:
 				ops = append(ops, vC20SrvOp{kind: "respond", att: rapid.IntRange(0, 3).Draw(rt, "att"),
-					timeout: time.Duration(rapid.SampledFrom([]int{0, 300, 1000, 5000}).Draw(rt, "timeoutMs")) * time.Millisecond})
+					timeout: vC20SrvTimeout(rapid.SampledFrom([]int{0, 300, 1000, 5000}).Draw(rt, "timeoutMs"))})
 			case c <= 6:
 				ops = append(ops, vC20SrvOp{kind: "punch", att: rapid.IntRange(0, 3).Draw(rt, "att"), typ: byte(rapid.IntRange(1, 2).Draw(rt, "typ")),
 					pad: rapid.SampledFrom([]int{0, 1, 100, 1024}).Draw(rt, "pad"), seed: rapid.Uint64().Draw(rt, "seed")})
 			case c == 7:
 				ops = append(ops, vC20SrvOp{kind: "cancel", att: rapid.IntRange(0, 3).Draw(rt, "att")})
 			case c == 8:
-				ops = append(ops, vC20SrvOp{kind: "sleep", sleep: time.Duration(rapid.SampledFrom([]int{50, 250, 400, 1100, 6000, 11000}).Draw(rt, "sleepMs")) * time.Millisecond})
+				ops = append(ops, vC20SrvOp{kind: "sleep", sleep: time.Duration(rapid.SampledFrom([]int{50, 250, 400, 1100, 6000, 11000}).Draw(rt, "sleepMs"))*time.Millisecond + time.Microsecond})
 			default:
 				ops = append(ops, vC20SrvOp{kind: "plain", seed: rapid.Uint64().Draw(rt, "seed")})
 			}
